@@ -11,6 +11,9 @@
 #include "alloc.h"
 #include <stdlib.h>
 #include <pmem.h>
+#ifndef VM_REC2_ALWAYS
+#define VM_REC2_ALWAYS 0   /* 1: the query guarantees that no string request is exactly 16 bytes */
+#endif
 #ifndef VM_STRBLK
 #define VM_STRBLK 16
 #endif
@@ -28,7 +31,7 @@ void *vm_malloc(size_t n) {
   VASSUME(n <= VM_STRBLK); p = malloc(VM_STRBLK);
   __CPROVER_assume(p != NULL);
 #elif !defined(VERIF_NATIVE)
-  if (n == sizeof(struct vm_rec2) && VM_STRBLK < sizeof(struct vm_rec2)) p = malloc(sizeof(struct vm_rec2));
+  if (n == sizeof(struct vm_rec2) && (VM_STRBLK < sizeof(struct vm_rec2) || VM_REC2_ALWAYS)) p = malloc(sizeof(struct vm_rec2));
   else if (n == sizeof(struct vm_rec3)) p = malloc(sizeof(struct vm_rec3));
   else { VASSUME(n <= VM_STRBLK); p = malloc(VM_STRBLK); }
   __CPROVER_assume(p != NULL);
